@@ -24,6 +24,12 @@ func init() {
 			"Not covered: actual goroutine schedules (io.Pipe and sync.WaitGroup semantics are trusted).",
 		Run: runC12,
 	})
+	mutant(&Mutant{Name: "c12-extension-from-request-uri", Property: "C12", File: "minify.go",
+		Old: "\tmediatype := mime.TypeByExtension(path.Ext(uri))\n", New: "\tmediatype := mime.TypeByExtension(path.Ext(r.RequestURI))\n\t_ = uri\n",
+		Rule: "R12.5", Construct: "extension fallback"})
+	mutant(&Mutant{Name: "c12-extension-query-not-cut", Property: "C12", File: "minify.go",
+		Old: "\tif i := strings.IndexByte(uri, '?'); i != -1 {\n\t\turi = uri[:i] // the extension is that of the path, not of the query\n\t}\n", New: "",
+		Rule: "R12.5", Construct: "extension fallback"})
 	mutant(&Mutant{Name: "c12-json-peeks-reader", Property: "C12", File: "json/json.go",
 		Old: "\tz := parse.NewInput(r)\n", New: "\tvar first [1]byte\n\tr.Read(first[:])\n\tz := parse.NewInput(r)\n",
 		Rule: "R12.1", Construct: "json.Minifier.Minify"})
@@ -342,11 +348,11 @@ func (c *Ctx) r124(pk *packages.Package) {
 // R12.5
 func (c *Ctx) r125(pk *packages.Package) {
 	const rule = "R12.5"
-	c.R.Rule(rule, "M.ResponseWriter initialises responseWriter.mediatype from mime.TypeByExtension(path.Ext(r.RequestURI)); in responseWriter.Write a non-empty Content-Type header of the wrapped writer is stored into w.mediatype on every path before M.Match(w.mediatype); M.Middleware and M.MiddlewareWithError call mw.Close() after next.ServeHTTP on every path")
+	c.R.Rule(rule, "M.ResponseWriter initialises responseWriter.mediatype from mime.TypeByExtension(path.Ext(P)) where P is the path component of the request — r.URL.Path / r.URL.EscapedPath(), or a string taken from r.RequestURI and cut at the first `?` (RequestURI carries the query: `/index.html?v=1` has no extension `.html?v=1`, and `/page?file=a.css` is not a style sheet); in responseWriter.Write a non-empty Content-Type header of the wrapped writer is stored into w.mediatype on every path before M.Match(w.mediatype); M.Middleware and M.MiddlewareWithError call mw.Close() after next.ServeHTTP on every path")
 	info := pk.TypesInfo
 	if fd := c.fn(rule, pk, "M.ResponseWriter"); fd != nil {
-		ok := false
-		// the composite literal's mediatype field value flows from mime.TypeByExtension(path.Ext(X.RequestURI))
+		ok, why := false, "the response writer's initial media type is not mime.TypeByExtension(path.Ext(…))"
+		// the composite literal's mediatype field value flows from mime.TypeByExtension(path.Ext(<request path>))
 		ast.Inspect(fd.Body, func(x ast.Node) bool {
 			cl, isCL := x.(*ast.CompositeLit)
 			if !isCL || namedTypeName(info.TypeOf(cl)) != rwT {
@@ -371,14 +377,14 @@ func (c *Ctx) r125(pk *packages.Package) {
 					}
 				}
 				if call := isCall(info, ast.Unparen(val), "mime.TypeByExtension"); call != nil {
-					if ext := isCall(info, ast.Unparen(call.Args[0]), "path.Ext"); ext != nil && isField(info, ext.Args[0], "net/http.Request", "RequestURI") {
-						ok = true
+					if ext := isCall(info, ast.Unparen(call.Args[0]), "path.Ext"); ext != nil {
+						ok, why = c.isRequestPath(pk, fd, ext.Args[0])
 					}
 				}
 			}
 			return true
 		})
-		c.R.Check(ok, rule, "minify.M.ResponseWriter/extension fallback", c.pos(fd), "mediatype = TypeByExtension(Ext(RequestURI))", "the response writer's initial media type is not derived from the request path extension")
+		c.R.Check(ok, rule, "minify.M.ResponseWriter/extension fallback", c.pos(fd), "mediatype = TypeByExtension(Ext(request path))", why)
 	}
 	if fd := c.fn(rule, pk, "responseWriter.Write"); fd != nil {
 		g := c.graph(pk, fd)
@@ -473,4 +479,78 @@ func (c *Ctx) r125(pk *packages.Package) {
 		})
 		c.R.Check(ok, rule, "minify."+name, c.pos(fd), "handler runs on the wrapper, Close follows on every path", "the middleware does not close the minifying writer after the handler on every path (output is lost / goroutine leaks), or bypasses the wrapper")
 	}
+}
+
+// isRequestPath: does e denote the path component of an *http.Request?
+func (c *Ctx) isRequestPath(pk *packages.Package, fd *ast.FuncDecl, e ast.Expr) (bool, string) {
+	info := pk.TypesInfo
+	e = ast.Unparen(e)
+	if sel, ok := e.(*ast.SelectorExpr); ok && sel.Sel.Name == "Path" && isField(info, sel.X, "net/http.Request", "URL") {
+		return true, ""
+	}
+	if call, ok := e.(*ast.CallExpr); ok && calleeName(info, call) == "net/url.(URL).EscapedPath" {
+		return true, ""
+	}
+	if isField(info, e, "net/http.Request", "RequestURI") {
+		return false, "the extension is taken from r.RequestURI, which includes the query string: `/index.html?v=1` yields no type and `/page?file=a.css` is treated as a style sheet"
+	}
+	id, ok := e.(*ast.Ident)
+	if !ok {
+		return false, "the argument of path.Ext (" + str(e) + ") is not recognisably the request path"
+	}
+	obj := info.Uses[id]
+	fromURI, cut := false, false
+	ast.Inspect(fd.Body, func(x ast.Node) bool {
+		as, ok := x.(*ast.AssignStmt)
+		if !ok {
+			return true
+		}
+		for i, l := range as.Lhs {
+			lid, isId := l.(*ast.Ident)
+			if !isId || (info.Defs[lid] != obj && info.Uses[lid] != obj) {
+				continue
+			}
+			if len(as.Rhs) == len(as.Lhs) {
+				r := ast.Unparen(as.Rhs[i])
+				if isField(info, r, "net/http.Request", "RequestURI") {
+					fromURI = true
+				}
+				if ok2, _ := c.isRequestPath(pk, fd, r); ok2 && r != e {
+					if _, isIdent := r.(*ast.Ident); !isIdent {
+						fromURI, cut = true, true
+					}
+				}
+				// v = v[:i] with i := strings.Index…(v, "?…")
+				if sl, isSl := r.(*ast.SliceExpr); isSl && sl.Low == nil && sl.High != nil {
+					if hid, isH := ast.Unparen(sl.High).(*ast.Ident); isH {
+						if d := c.singleDef(pk, hid); d != nil {
+							if ic, isC := ast.Unparen(d).(*ast.CallExpr); isC && strings.Contains(calleeName(info, ic), ".Index") && len(ic.Args) == 2 {
+								if v, err := c.Ev.Expr(pk, ic.Args[1]); err == nil && strings.Contains(fmt.Sprint(v), "?") || strings.Contains(str(ic.Args[1]), "'?'") {
+									cut = true
+								}
+							}
+						}
+					}
+				}
+			}
+			// v, _, _ = strings.Cut(uri, "?")
+			if len(as.Rhs) == 1 && i == 0 {
+				if cc, isC := ast.Unparen(as.Rhs[0]).(*ast.CallExpr); isC && calleeName(info, cc) == "strings.Cut" && len(cc.Args) == 2 {
+					if isField(info, cc.Args[0], "net/http.Request", "RequestURI") {
+						if v, err := c.Ev.Expr(pk, cc.Args[1]); err == nil && fmt.Sprint(v) == "?" {
+							fromURI, cut = true, true
+						}
+					}
+				}
+			}
+		}
+		return true
+	})
+	if fromURI && cut {
+		return true, ""
+	}
+	if fromURI {
+		return false, "the extension is taken from r.RequestURI without cutting the query string off: `/index.html?v=1` yields no type and `/page?file=a.css` is treated as a style sheet"
+	}
+	return false, "the argument of path.Ext (" + str(e) + ") is not recognisably the request path"
 }
